@@ -14,9 +14,14 @@ import (
 //	mode 2: every '/' is written \u002f
 //	mode 3: the first character of every string literal (if it is an unescaped ASCII letter) is written \u00XX
 //	mode 4: a space after every ':' and ',' outside strings, and mode 1 inside
+//	mode 5: mode 4, and white space before the whole text (the SDK's line-delimited reader deliberately
+//	        refuses anything but a line end right after a value, so none is added behind it)
 func Respell(s string, mode int) string {
 	if mode == 0 {
 		return s
+	}
+	if mode == 5 {
+		return " \t" + Respell(s, 4)
 	}
 	var b strings.Builder
 	inStr, esc, first := false, false, false
